@@ -29,9 +29,17 @@ func run(b *harness.B) {
 		}
 		rng := b.SubRng(fmt.Sprint("net", i))
 		net := chaingen.GenNet(rng, fam, b.Batch*100+i)
+		prop := "C01"
+		if b.Batch == 2 && i == 0 {
+			// directed (audit round 2): nothing ties the siafunds allocated by the genesis block to the constant the
+			// claims divide by
+			net.SFParts = []uint64{1, 999, 1000, 3000, 5000, 10000}
+			prop = "C01/genesis-allocating-20000-siafunds"
+			b.Count("networks_with_a_genesis_allocating_20000_siafunds", 1)
+		}
 		c := chaingen.NewChain(net, rng)
 		c.NoLegacyEphemeralSF = true // outside the claim (see the property's quantifier)
-		led := chainmon.NewLedger("C01", b, net.N)
+		led := chainmon.NewLedger(prop, b, net.N)
 		led.OnApply(c.GenesisEvent)
 		led.CompareStore(c.S, "after-genesis")
 		c.OnStoreApplied = func(ev chaingen.ApplyEvent) {
@@ -60,11 +68,16 @@ func run(b *harness.B) {
 		// greedy-adversary variants: blocks that would create value if accepted; an accepted one is applied to a
 		// copy of the ledger, which then judges it
 		c.OnAccepted = func(cs consensus.State, orig types.Block, bs consensus.V1BlockSupplement, kinds []string) {
-			greedy(b, c, led, cs, orig)
+			if prop == "C01" {
+				greedy(b, c, led, cs, orig)
+			}
 		}
 		// a generator block the library refuses is still a template: every value-creating or value-destroying
 		// variant of it must be refused too, and an accepted one is judged by the ledger
 		c.OnRejected = func(cs consensus.State, orig types.Block, bs consensus.V1BlockSupplement, kinds []string, err error) {
+			if prop != "C01" {
+				return
+			}
 			b.Count("greedy_templates_from_rejected_generator_blocks", 1)
 			greedy(b, c, led, cs, orig)
 		}
